@@ -239,17 +239,19 @@ inline void meshQueryChecks(vh::Ctx& c, const BuiltMesh& b, vh::Rng& r, int nNea
         if (!c.require("nan:mesh-nearest", finite3(p) && finite3(Vec3(uv[0], uv[1], 0)), W)) continue;
         c.require("deterministic:mesh-nearest-two-signatures", (p - p2).norm() == 0 && inA == inB, W);
         if (!c.require("faceuv:range", face >= 0 && face < m.nf() && uv[0] >= -1e-12 && uv[1] >= -1e-12 && uv[0] + uv[1] <= 1 + 1e-12, W)) continue;
-        c.check("faceuv:reproduces-point", (tm.findPoint(face, uv) - p).norm(), 1e-13 * pos * 8 + 1e-14 * sc, W);
+        c.check("faceuv:reproduces-point", (tm.findPoint(face, uv) - p).norm(), 2e-12 * (pos + sc), W);
         BfNearest bf = bfNearest(m, V3(x));
         const std::string tier = b.cls == "sliver" ? "sliver" : "regular";
         double tol = (1e-12 * sc + 1e-14 * pos) * std::min(cond, 1e8);
         c.check("nearest-distance:" + tier, std::fabs((p - x).norm() - (double)bf.dist), tol, [&]() { return W().set("brute_force_distance", (double)bf.dist).set("brute_force_face", bf.face); });
         LD onS = distToTriangle(V3(p), m.vert(face, 0), m.vert(face, 1), m.vert(face, 2));
-        c.check("onsurface:mesh-nearest-on-reported-face", (double)onS, 1e-13 * pos * 8 + 1e-14 * sc, W);
+        c.check("onsurface:mesh-nearest-on-reported-face", (double)onS, 2e-12 * (pos + sc), W);
         if ((double)bf.dist > 1e-7 * sc) {
             BfInside bi = bfInside(m, V3(x), r);
-            if (bi.ok) c.require(std::string("inside:mesh-nearest:") + QC[qc], inA == bi.inside, [&]() { return W().set("parity_inside", bi.inside).set("flag", inA); });
-            else c.skip("inside-parity-no-clean-ray");
+            LD wn = windingNumber(m, V3(x));
+            bool wnIn = wn > 0.5L, wnClear = std::fabs(wn - (wnIn ? 1 : 0)) < 1e-6L;
+            if (bi.ok && wnClear && wnIn == bi.inside) c.require(std::string("inside:mesh-nearest:") + QC[qc], inA == bi.inside, [&]() { return W().set("parity_inside", bi.inside).set("winding_number", (double)wn).set("flag", inA); });
+            else c.skip("inside-oracles-not-clean");
         }
         // findNearestPointToFace: the per-face service used by the tree
         Vec2 uvf; Vec3 pf = tm.findNearestPointToFace(x, bf.face, uvf);
@@ -279,10 +281,17 @@ inline void meshQueryChecks(vh::Ctx& c, const BuiltMesh& b, vh::Rng& r, int nNea
         bool hit2 = tm.intersectsRay(o, UnitVec3(d), dist2, nn);
         c.cover("mesh-ray:" + cell);
         UnitVec3 ud(d);     // the direction the library actually used
-        BfRay br = bfRay(m, V3(o), V3(Vec3(ud)), 1e-7L);
+        BfRay br = bfRay(m, V3(o), V3(Vec3(ud)), 1e-7L, rc == 4 ? f : -1);
         auto W = [&, o, d, hit, dist, face, uv]() { return Json::obj().set("mesh", b.cls).set("faces", m.nf()).set("origin", jv(o)).set("direction", jv(d)).set("class", RC[rc]).set("hit", hit).set("distance", dist).set("face", face).set("uv", jv(uv)).set("bf_hit", br.hit).set("bf_distance", (double)br.t).set("bf_face", br.face); };
         c.require("deterministic:mesh-ray-two-signatures", hit == hit2 && (!hit || dist == dist2), W);
         if (br.grazing) { c.skip("ray-grazing-edge"); continue; }
+        if (rc == 4) {
+            // origin on a face (well inside it): the hit at distance 0 and the next crossing are both right answers
+            const double sc0 = m.scale + (o - m.center).norm();
+            bool ok0 = hit && std::fabs(dist) <= 1e-9 * sc0, okNext = hit == br.hit && (!hit || std::fabs(dist - (double)br.t) <= 1e-10 * (sc0 + std::fabs(dist)));
+            c.require("ray-from-surface:zero-or-next-crossing", ok0 || okNext, W);
+            continue;
+        }
         if (!c.require(std::string("ray-hit-or-miss:") + RC[rc], hit == br.hit, W)) continue;
         if (!hit) { c.require("ray-miss-leaves-outputs", dist == -7.25 && face == -1, W); continue; }
         const double sc = m.scale + (o - m.center).norm() + std::fabs(dist), pos = m.center.norm() + m.scale;
